@@ -249,6 +249,11 @@ def case_flowc(ctx, case, be=None):
     bad = [i for i in sorted(impl) if (str(int(impl[i])) not in model[i].split('/') if impl[i] is not None else True)]
     ctx.corr('' if not bad else f'{bad[0]}={impl[bad[0]]}', '' if not bad else f'{bad[0]}={model[bad[0]]}',
              f'{what} vs the code\'s own scheme (branch points (L−d)·d, segments inherit their distal seed, forks = max child) {tag(be)}', case)
+    # fork rule on the returned column itself (children that are not forks keep their own value)
+    badf = [i for i in sorted(impl) if tp.is_fork(i) and not any(tp.is_fork(c) for c in tp.ch[i])
+            and impl[i] != max(impl[c] for c in tp.ch[i])]
+    ctx.oracle(not badf, f'{what}: fork {badf and badf[0]} has {badf and impl[badf[0]]}, its children have '
+               f'{badf and [impl[c] for c in tp.ch[badf[0]]]}: a fork takes its largest child\'s value {tag(be)}', case)
     # by the definition: number of tip-to-tip paths leaving the node towards its parent, per tree
     spec = parse_col(ctx.ask(f'c17.tips {wire}'))
     diff = [i for i in sorted(impl) if not tp.is_fork(i) and tp.par[i] >= 0 and str(int(impl[i] or 0)) != spec[i]]
@@ -507,7 +512,7 @@ def gen_cases(ctx, n=None):
     r = ctx.rng
     for k in range(n or ctx.budget(110, 900)):
         small = (k % 3 == 0)
-        rows, meta = G.rand_forest(r, nmax=9 if small else ctx.budget(16, 22))
+        rows, meta = G.rand_forest(r, nmax=9 if small else (16 if ctx.quick() else 22))
         tp = Topo(rows)
         ids = tp.ids
         # --- Strahler
